@@ -271,7 +271,11 @@ def unique_check(ctx, c, outs):
     m = miller(c)
     with warnings.catch_warnings():
         warnings.simplefilter("ignore")
-        u = m.unique(use_symmetry=True)
+        if c.get("via_symmetrise"):
+            # the output of one method fed to the other: all distinct images of every input, then one per orbit
+            u = m.symmetrise(unique=True).unique(use_symmetry=True)
+        else:
+            u = m.unique(use_symmetry=True)
     if u.phase is None or u.phase.point_group.name != G.name or u.coordinate_format != m.coordinate_format:
         return f"{G.name}: unique(use_symmetry=True) lost the phase or the coordinate format"
     flat = m.data.reshape(-1, 3)
@@ -286,12 +290,16 @@ def unique_check(ctx, c, outs):
     for i in range(len(ud)):
         for j in range(i + 1, len(ud)):
             if same_orbit(ud[i], ud[j]):
-                return f"{G.name}: unique(use_symmetry=True) keeps two vectors of one orbit: {ud[i].tolist()}, {ud[j].tolist()}"
+                return (f"{G.name}: unique(use_symmetry=True) keeps two vectors of one orbit: {ud[i].tolist()}, {ud[j].tolist()} "
+                        f"(returned {len(ud)} vectors)")
     for v in flat:
         if not any(same_orbit(k, v) for k in ud):
             return f"{G.name}: unique(use_symmetry=True) dropped the whole orbit of {v.tolist()}"
     for k in ud:
-        if not (np.abs(flat - k).max(axis=1) <= 1e-9 * scale).any():
+        if c.get("via_symmetrise"):
+            if not any(same_orbit(v, k) for v in flat):
+                return f"{G.name}: symmetrise(unique=True).unique(use_symmetry=True) returned {k.tolist()}, which is not an image of an input"
+        elif not (np.abs(flat - k).max(axis=1) <= 1e-9 * scale).any():
             return f"{G.name}: unique(use_symmetry=True) returned {k.tolist()}, which is not one of the inputs"
     return None
 
@@ -497,7 +505,42 @@ def angle_several_others(case, what=None):
     return "others" in case and len(case["others"]) > 1 and "it is the minimum over the orbits of ALL other vectors" in (what or "")
 
 
-PREDICATES = {"round_error_grid": round_error_grid, "angle_several_others": angle_several_others}
+def _double_rounding_count(case):
+    """number of vectors the documented mechanism keeps (independent re-implementation with the live operations as Cartesian
+    matrices): rows rounded to 10 decimals and made unique, images of the ROUNDED rows rounded to 10 decimals, each image
+    list sorted, unique sorted lists"""
+    m = miller(case)
+    with warnings.catch_warnings():
+        warnings.simplefilter("ignore")
+        if case.get("via_symmetrise"):
+            m = m.symmetrise(unique=True)
+    d = np.round(np.asarray(m.data, float).reshape(-1, 3), 10)
+    d = d[np.abs(d).sum(axis=1) > 0]
+    d = np.unique(d, axis=0)
+    # the images are taken with orix's own rotation of vectors (C02): a value that the first rounding put on the 1e-10 grid is
+    # mapped next to a boundary of the second rounding, where the last bit of the product decides
+    from orix.vector import Vector3d
+    img = np.asarray(m.phase.point_group.outer(Vector3d(d)).data, float)          # (g, n, 3)
+    keys = set()
+    for i in range(len(d)):
+        a = np.round(img[:, i, :], 10) + 0.0
+        a = a[np.lexsort(a.T)]
+        keys.add(a.tobytes())
+    return len(keys)
+
+
+def unique_sym_double_rounding(case, what=None):
+    """finding C10-unique-sym-double-rounding: trigonal / hexagonal groups (operations with irrational Cartesian entries), only
+    the failure 'keeps two vectors of one orbit' (a lost orbit or a vector that is not an input is never matched), and only
+    when the number of vectors returned is the one the double rounding predicts for this very input"""
+    what = what or ""
+    if basis_of(case["k"]) != "hex" or "keeps two vectors of one orbit" not in what or "(returned " not in what:
+        return False
+    n = int(what.split("(returned ")[1].split()[0])
+    return n == _double_rounding_count(case)
+
+
+PREDICATES = {"unique_sym_double_rounding": unique_sym_double_rounding, "round_error_grid": round_error_grid, "angle_several_others": angle_several_others}
 
 
 def vectors(rng, G, n):
@@ -526,6 +569,30 @@ def vectors(rng, G, n):
             v = np.array([1.0, 2.0, 3.0])
         out.append([float(x) for x in v])
     return out
+
+
+def orbit_mix(rng, k, basis, n_base, n_img):
+    """Cartesian vectors: `n_base` base vectors given by small integer indices (hkl or uvw, converted by orix) or in general
+    position, plus `n_img` images of them under operations of the group, shuffled"""
+    from orix.vector import Miller
+    G = groups()[k]
+    M = cart_ops(G)
+    ph = phase_for(k, basis)
+    base = []
+    for i in range(n_base):
+        if i % 3 == 2:
+            base.append(rng.normal(size=3))
+        else:
+            w = rng.integers(-3, 4, size=3).astype(float)
+            if not w.any():
+                w[int(rng.integers(3))] = 1.0
+            base.append(np.asarray(Miller(phase=ph, **{["hkl", "uvw"][i % 2]: w.reshape(1, 3)}).data, float).reshape(3))
+    out = [b for b in base]
+    for _ in range(n_img):
+        b = base[int(rng.integers(len(base)))]
+        out.append(M[int(rng.integers(len(M)))] @ b)
+    order = rng.permutation(len(out))
+    return [[float(x) for x in out[j]] for j in order], len(base)
 
 
 MAX_INDICES = (1, 2, 5, 12, 20, 60)
@@ -694,6 +761,16 @@ def generate(ctx):
             yield "reuse", cr
             ctx.count("unique_sym", ("u", k, tuple(coords[0])), nontrivial=G.size > 1)
             yield "unique_sym", dict(c)
+            # several members of one orbit in the input; the orbit list of symmetrise fed to unique
+            om, nb = orbit_mix(rng, k, b, 2 + r % 2, 4)
+            cu = {"k": k, "basis": b, "fmt": "xyz", "shape": [len(om)], "coords": om}
+            ctx.count("unique_sym/orbit_members", ("uo", k, tuple(om[0])), nontrivial=G.size > 1)
+            yield "unique_sym", cu
+            cv = {"k": k, "basis": b, "fmt": ["hkl", "uvw"][r % 2], "shape": [2], "via_symmetrise": True,
+                  "coords": [[float(x) for x in rng.integers(-3, 4, size=3)] for _ in range(2)]}
+            cv["coords"] = [v if any(v) else [1.0, 0.0, 2.0] for v in cv["coords"]]
+            ctx.count("unique_sym/after_symmetrise", ("uv", k, tuple(cv["coords"][0])), nontrivial=G.size > 1)
+            yield "unique_sym", cv
             ctx.count("angle_sym", ("a", k, tuple(coords[0])), nontrivial=G.size > 1)
             yield "angle_sym", dict(c, other=vectors(rng, G, 1)[0])
             ints = [[int(x) for x in rng.integers(-4, 5, size=3)] for _ in range(2)]
